@@ -78,7 +78,7 @@ func (s *scoreSet) list() []float64 {
 // query panicked (counted; the acceptance/no-panic properties judge those).
 func obsScores3(w *W, level int, s string) (b, t, e float64, ok bool) {
 	k := lib.Kind3(level)
-	o, err, pan := lib.Decode(k, s, false)
+	o, err, pan := lib.DecodeAuto(k, s)
 	if pan != nil || err != nil || o.IsNil() {
 		w.Count("valid_vector_not_decoded")
 		w.Sample(map[string]string{"not_decoded": s, "kind": k.String(), "err": lib.ErrText(err)})
